@@ -500,7 +500,9 @@ func (g *Engine) borrow(c *Conn) *[]byte {
 }
 
 //go:norace
-func (g *Engine) payback(c *Conn, pbuf *[]byte) {
-	*pbuf = (*pbuf)[:cap(*pbuf)]
+func (g *Engine) payback(c *Conn, pbuf *[]byte, size int) {
+	// hand the buffer back with the length it was borrowed with: a buffer of
+	// a user's OnReadBufferAlloc may be a window of a larger array.
+	*pbuf = (*pbuf)[:size]
 	g.onReadBufferFree(c, pbuf)
 }
